@@ -298,10 +298,14 @@ def h_adjust(c):
   before = c.snapshot(ns)
   # minimum_duration: collapsed notes are kept with this duration instead of
   # being skipped
-  mind = c.real('min_dur', 0, 1) if c.params.get('min_dur') else None
+  mind = c.real('min_dur', 0, 1) if c.params.get('min_dur') is True else None
   if mind is not None:
     c.assume(mind > 0)
     res, err = c.raises(sl.adjust_notesequence_times, ns, f, mind)
+  elif c.params.get('min_dur') == 'zero':
+    # the degenerate value 0 means "no minimum": collapsed notes are skipped
+    res, err = c.raises(sl.adjust_notesequence_times, ns, f,
+                        c.choice('zero', [0, 0.0]))
   else:
     res, err = c.raises(sl.adjust_notesequence_times, ns, f)
   c.check(c.msg_eq(ns, before), 'input unchanged')
@@ -478,6 +482,7 @@ def jobs(tier):
   add('h_adjust', N=2, m1=slopes[1], m2=slopes[3])
   add('h_adjust', N=2, m1=slopes[2], m2=slopes[0])
   add('h_adjust', N=1, m1=slopes[2], m2=slopes[0], min_dur=True)
+  add('h_adjust', N=1, m1=slopes[2], m2=slopes[0], min_dur='zero')
   add('h_rectify', B=1, bpm=60)
   add('h_rectify', B=2, bpm=120)
   add('h_rectify_quantized')
